@@ -204,7 +204,11 @@ class B(object):
         elif self.chance(15) and names:
             kn = self.pick([p for p in POOL if p not in names] or ['kk'])
             text.append('*')
-            text.append('%s=%s' % (kn, self.expr(ctx, depth + 1, forbid)))
+            if self.chance(50):
+                text.append(kn)                 # required keyword-only parameter: kw_defaults holds None for it
+                self.features.add('lambda-kwonly-required')
+            else:
+                text.append('%s=%s' % (kn, self.expr(ctx, depth + 1, forbid)))
             self.features.add('lambda-kwonly')
         inner = dict(ctx, no_walrus=True, in_class_direct=False, in_lambda=True, bound=list(ctx.get('bound', [])) + names)
         body = self.expr(inner, depth + 1, ())
